@@ -222,6 +222,9 @@ class Body:
         self._reft[l] = None  # cycle guard
         defs = self._all_defs().get(l, [])
         res = None
+        if 1 <= l <= self.nargs:
+            # a (mut) parameter that is re-assigned in the body has two definitions: the caller's value and the assignment
+            defs = []
         if len(defs) == 1 and defs[0][2] == 'a' and defs[0][3] == []:
             rv = defs[0][4]
             if rv[0] == 'ref' or rv[0] == 'rawptr':
